@@ -53,7 +53,7 @@ From CSS Require Import Base.Sx Spec.Extractor Spec.ExtractorProofs
   Parallel.Model Parallel.Basics Parallel.First Parallel.Second Parallel.Matched Parallel.Fixed
   Parallel.Refuted Parallel.SpecStage Parallel.Memo Parallel.Term Parallel.Term2 Parallel.Term3
   Parallel.EndToEnd Parallel.EqSecond Parallel.EqTerm Parallel.InfoModel Parallel.InfoProofs Parallel.Final
-  Parallel.Run.
+  Parallel.Examples Parallel.Run.
 Import ListNotations.
 
 (* ---------------------------------------------------------------- the output is a matched pair *)
@@ -181,8 +181,8 @@ Definition ex2 : side :=
     [(7, [([], (-1)%Z)]); (5, [([6; 7], 0%Z); ([7; 7], 0%Z)]); (6, [([5; 7], 1%Z)])]%nat.
 
 Example C13_nonvacuous :
-  find_base_old ex1 ex2 30%nat = Found [(2, [0; 1]); (1, [0; 2]); (0, [])]%nat [(5, [6; 7]); (6, [5; 7]); (7, [])]%nat /\
-  find_base ex1 ex2 30%nat 100%nat = find_base_old ex1 ex2 30%nat.
+  find_base_old ex1 ex2 101%nat = Found [(2, [0; 1]); (1, [0; 2]); (0, [])]%nat [(5, [6; 7]); (6, [5; 7]); (7, [])]%nat /\
+  find_base ex1 ex2 101%nat 400%nat = find_base_old ex1 ex2 101%nat.
 Proof. split; vm_compute; reflexivity. Qed.
 
 (* the hypothesis of C13_failure_memo_sound is satisfiable: the two roots of ex1/ex2 are matchable
@@ -203,6 +203,64 @@ Proof.
     intros [|[|i1]] i2 Hn; simpl in Hn; inversion Hn; subst; simpl; auto. destruct i1; discriminate.
   - left. vm_compute. reflexivity.
 Qed.
+
+(* ---------------------------------------------------------------- APPLIED examples
+   Every theorem above that has hypotheses, applied to a concrete non-trivial instance with ALL its
+   hypotheses discharged: the universes ex1 / ex2 (recursion, repeated children, a permuted match;
+   length (all_pairs ex1 ex2) = 100, so fuel 101 / 201 and walk fuel 400 / 30302 meet the bounds of the
+   totality theorems), an oracle that answers every question, and for the end-to-end theorems two small
+   rule databases (ex_db: start label 5 with representative 0, an empty class skipped; ex_db2) from which
+   InfoModel builds both universes. *)
+Definition exd1 : smap := [(2, [0; 1]); (1, [0; 2]); (0, [])]%nat.
+Definition exd2 : smap := [(5, [6; 7]); (6, [5; 7]); (7, [])]%nat.
+Definition ex_wfuel : nat := (101 * 300 + 2)%nat.
+
+Example C13_matched_pair_applied : matched_pair ex1 ex2 exd1 exd2.
+Proof. apply (C13_matched_pair ex1 ex2 101%nat 400%nat). vm_compute. reflexivity. Qed.
+
+Example C13_matched_pair_eqpath_applied : matched_pair ex1 ex2 exd1 exd2.
+Proof.
+  eapply (C13_matched_pair_eqpath ex1 ex2 true 201%nat ex_wfuel all_true all_true). vm_compute. reflexivity.
+Qed.
+
+Example C13_base_finder_total_applied :
+  find_base ex1 ex2 101%nat 400%nat = Nothing \/ exists d1 d2, find_base ex1 ex2 101%nat 400%nat = Found d1 d2.
+Proof. apply C13_base_finder_total; apply Nat.ltb_lt; vm_compute; reflexivity. Qed.
+
+Example C13_eqpath_finder_never_raises_applied :
+  find_eq ex1 ex2 true 201%nat ex_wfuel all_true all_true <> EOut (Failed E_KEY) [].
+Proof. apply C13_eqpath_finder_never_raises; intros k; discriminate. Qed.
+
+Example C13_eqpath_finder_total_applied :
+  exists asked, find_eq ex1 ex2 true 201%nat ex_wfuel all_true all_true = EOut Nothing asked \/
+                exists d1 d2, find_eq ex1 ex2 true 201%nat ex_wfuel all_true all_true = EOut (Found d1 d2) asked.
+Proof.
+  apply C13_eqpath_finder_total; try (intros k; discriminate); apply Nat.ltb_lt; vm_compute; reflexivity.
+Qed.
+
+Example C13_first_search_sound_applied :
+  exists b st, find ex1 ex2 101%nat 2%nat 5%nat init_fstate = Ok (b, st) /\
+    forall id1 id2 d c order, mi_get (f_mi st) (id1, id2) = Some d -> In (c, order) d ->
+      (c = ([], []) /\ order = [] /\ atoms_match ex1 ex2 id1 id2 = true)
+      \/ (In c (potential_children ex1 ex2 id1 id2) /\ fst c <> [] /\ perm_ok (length (fst c)) order).
+Proof.
+  eexists _, _. split; [vm_compute; reflexivity|].
+  apply (C13_first_search_sound ex1 ex2 101%nat true). vm_compute. reflexivity.
+Qed.
+
+Example C13_failure_memo_sound_applied :
+  exists b st, find ex1 ex2 101%nat 2%nat 5%nat init_fstate = Ok (b, st) /\
+    (forall p, In p (f_visited st) -> mi_mem (f_mi st) p = false -> ~ matchable ex1 ex2 p) /\
+    (matchable ex1 ex2 (2, 5)%nat -> b = true).
+Proof.
+  eexists _, _. split; [vm_compute; reflexivity|].
+  apply (C13_failure_memo_sound ex1 ex2 101%nat). vm_compute. reflexivity.
+Qed.
+
+Example C13_maps_use_rules_applied :
+  (forall l c, In (l, c) exd1 -> (c = [] /\ atom_of ex1 l <> None) \/ exists k, In (c, k) (rules_of ex1 l)) /\
+  (forall l c, In (l, c) exd2 -> (c = [] /\ atom_of ex2 l <> None) \/ exists k, In (c, k) (rules_of ex2 l)).
+Proof. apply (C13_maps_use_rules ex1 ex2 101%nat 400%nat). vm_compute. reflexivity. Qed.
 
 (* the a34d719 situation: start label 5 is not its own representative (rep 5 = 0 = root equivalence
    label); stored rules 0 -> (1, 2) and 1 -> (); label 2 is equivalent to 1.  Label map {0: (1,1), 1: ()}. *)
@@ -254,6 +312,72 @@ Qed.
 (* an oracle that answers every question *)
 Example C13_total_oracle : forall k : qkey, (fun _ : qkey => Some true) k <> None.
 Proof. intros k. discriminate. Qed.
+
+(* the rule databases: ParallelInfo's universe, the specification stage, and the two end-to-end theorems *)
+Example C13_universe_well_formed_applied :
+  universe_of (db_rep ex_db) ex_side (db_keys ex_db) /\ s_root ex_side = db_rep ex_db (db_start ex_db).
+Proof.
+  destruct C13_construct_example as [Hc [_ Hv]]. exact (C13_universe_well_formed ex_db ex_lis ex_side Hv Hc).
+Qed.
+
+Lemma ex_db_order : order_ok (db_rep ex_db) (db_keys ex_db) [(0, [1; 1]); (1, [])]%nat 5%nat [5; 2]%nat.
+Proof.
+  intros d0 e2p H. vm_compute in H. inversion H; subst. intros l.
+  destruct l as [|[|[|[|[|[|l]]]]]]; vm_compute; intuition congruence.
+Qed.
+
+Example C13_spec_from_label_map_applied :
+  exists dict, extract ex_rep ex_fpath [(0, [1; 2]); (1, [])]%nat [(0, [1; 1]); (1, [])]%nat 5%nat [5; 2]%nat = Some dict /\
+    (forall e, In e dict -> forall c, In c (snd e) -> dom dict c = true) /\
+    dom dict 5%nat = true /\
+    (forall e, In e dict -> In e [(0, [1; 2]); (1, [])]%nat \/
+       exists l t p c, step_of (ex_fpath l t) p c /\ e = (p, [c])).
+Proof.
+  apply (C13_spec_from_label_map ex_rep ex_fpath [(0, [1; 2]); (1, [])]%nat [(0, [1; 1]); (1, [])]%nat 0%nat 5%nat
+           [5; 2]%nat 10%nat).
+  - exact (path2_contract ex_rep).
+  - vm_compute. reflexivity.
+  - reflexivity.
+  - intros e [<-|[<-|[]]].
+    + exists (0, [1; 2])%nat. split; [left; reflexivity|vm_compute; reflexivity].
+    + exists (1, [])%nat. split; [right; left; reflexivity|vm_compute; reflexivity].
+  - intros d0 e2p H. vm_compute in H. inversion H; subst. intros l.
+    destruct l as [|[|[|[|[|[|l]]]]]]; vm_compute; intuition congruence.
+Qed.
+
+Example C13_two_rule_sets_applied :
+  rule_set_ok (db_rep ex_db) path2 (db_keys ex_db) [(0, [1; 1]); (1, [])]%nat 5%nat [5; 2]%nat /\
+  rule_set_ok (db_rep ex_db2) path2 (db_keys ex_db2) [(3, [7; 7]); (7, [])]%nat 3%nat [].
+Proof.
+  destruct C13_construct_example as [Hc1 [_ Hv1]]. destruct ex_db2_construct as [Hc2 _].
+  apply (C13_two_rule_sets ex_db ex_lis ex_db2 ex_lis2 ex_side ex_side2 26%nat 100%nat
+           [(0, [1; 1]); (1, [])]%nat [(3, [7; 7]); (7, [])]%nat Hc1 Hc2 Hv1 ex_db2_ver)
+    with (tf1 := 10%nat) (tf2 := 10%nat).
+  - vm_compute. reflexivity.
+  - apply path2_ok.
+  - apply path2_ok.
+  - vm_compute. reflexivity.
+  - vm_compute. reflexivity.
+  - exact ex_db_order.
+  - exact ex_db2_order.
+Qed.
+
+Example C13_two_rule_sets_eqpath_applied :
+  rule_set_ok (db_rep ex_db) path2 (db_keys ex_db) [(0, [1; 1]); (1, [])]%nat 5%nat [5; 2]%nat /\
+  rule_set_ok (db_rep ex_db2) path2 (db_keys ex_db2) [(3, [7; 7]); (7, [])]%nat 3%nat [].
+Proof.
+  destruct C13_construct_example as [Hc1 [_ Hv1]]. destruct ex_db2_construct as [Hc2 _].
+  eapply (C13_two_rule_sets_eqpath ex_db ex_lis ex_db2 ex_lis2 ex_side ex_side2 true 51%nat 2000%nat all_true all_true
+            [(0, [1; 1]); (1, [])]%nat [(3, [7; 7]); (7, [])]%nat _ Hc1 Hc2 Hv1 ex_db2_ver)
+    with (tf1 := 10%nat) (tf2 := 10%nat).
+  - vm_compute. reflexivity.
+  - apply path2_ok.
+  - apply path2_ok.
+  - vm_compute. reflexivity.
+  - vm_compute. reflexivity.
+  - exact ex_db_order.
+  - exact ex_db2_order.
+Qed.
 
 (* what _create_spec did before a34d719: the root EQUIVALENCE label 0 in place of the start label 5 —
    the dictionary has no entry for the start label (the real extractor then fails in the
